@@ -72,7 +72,7 @@ def run_harness(binp, inputs):
     if rc != 0 or not lines or lines[0] != "ascii-ok":
         raise RuntimeError("harness c19 failed rc=%s: %s" % (rc, out[-1500:]))
     rows = [l.split("\t") for l in lines[1:] if l]
-    if len(rows) != len(inputs) or any(len(r) != 10 for r in rows):
+    if len(rows) != len(inputs) or any(len(r) != 11 for r in rows):
         raise RuntimeError("harness c19: %d result lines for %d inputs" % (len(rows), len(inputs)))
     return rows
 
@@ -128,9 +128,9 @@ def run(ctx):
     for (origin, var, b), r in zip(cases, rows):
         st = stc[r[0].split(" ")[0]]
         if st == 0:
-            term = "(0, %s, %s, %s, %s, %s, %s)" % (r[2], r[3], r[5], r[6], r[7], r[9])
+            term = "(0, %s, %s, %s, %s, %s, %s, %s)" % (r[2], r[3], r[5], r[6], r[7], r[9], r[10])
         else:
-            term = "(%d, [], %s, [], XLexPanic, 0, %s)" % (st, r[3], r[9])
+            term = "(%d, %s, %s, [], XLexPanic, 0, %s, %s)" % (st, r[2], r[3], r[9], r[10])
         items.append((len(b) + 50, term))
     nsh = NCPU
     order = sorted(range(len(items)), key=lambda i: -items[i][0])
@@ -153,11 +153,15 @@ def run(ctx):
             ctx.violation("judge-eval", {"shard": k}, "C19 judge returned a wrong number of results", no_input=True)
             return
         for i, c in zip(assign[k], got):
-            codes[i] = (int(c[0]), int(c[1]), int(c[2]))
+            codes[i] = (int(c[0]), int(c[1]), int(c[2]), int(c[3]))
     hist, per_variant = {}, {}
     cmh, cmbad = {}, []
     CM = {0: "equal-wellformed", 1: "differ", 2: "equal-not-wellformed", 3: "no-map"}
-    for (origin, var, b), r, (c, idx, cmc) in zip(cases, rows, codes):
+    auh, aubad = {}, []
+    for (origin, var, b), r, (c, idx, cmc, auc) in zip(cases, rows, codes):
+        auh[auc] = auh.get(auc, 0) + 1
+        if auc == 1 and len(aubad) < 5:
+            aubad.append((key_of(b), {"file": origin, "variant": var, "input_hex": b.hex()[:6000]}))
         cmh[CM[cmc]] = cmh.get(CM[cmc], 0) + 1
         if cmc in (1, 2) and len(cmbad) < 5:
             cmbad.append((key_of(b), {"file": origin, "variant": var, "input_hex": b.hex()[:6000], "real_cmap": r[9][:1000], "code": CM[cmc]}))
@@ -169,6 +173,44 @@ def run(ctx):
             ctx.violation(key_of(b), {"file": origin, "variant": var, "input_hex": b.hex() if len(b) < 6000 else None,
                                       "formatted": outb.decode("utf-8", "replace")[:3000], "first_diff_token_index": idx},
                           "%s variant=%s: %s" % (origin, var, CODES[c]))
+    # ---- automaton correspondence on lexer mutants and token soups (harness c16 gives the real streams)
+    from props import c16 as pc16
+    bin16, _ = rust.build("c16")
+    nmutants = 1000 if ctx.quick else 20000
+    mhist = {}
+    if bin16 is None:
+        ctx.violation("harness-build", {}, "harness c16 (used for the automaton correspondence) does not build", no_input=True)
+    else:
+        strs = [b.decode() for _, b in files if 0 < len(b) <= 6000] or ["fn main() {}"]
+        mcases = []
+        for ln in open(os.path.join(ROOT, "corpus", "C16", "regress.txt"), encoding="utf-8"):
+            ln = ln.split("#")[0].strip()
+            if ln: mcases.append(b"" if ln == "-" else bytes.fromhex(ln))
+        for _ in range(nmutants):
+            if rng.random() < 0.25:
+                mcases.append(pc16.sanitize(pc16.soup(rng)))
+            else:
+                base = pc16.window(rng, rng.choice(strs), rng.choice([60, 200, 500]))
+                mcases.append(pc16.sanitize(pc16.mutate(rng, base, [pc16.window(rng, rng.choice(strs), 300)])[1]))
+        try:
+            mrows = pc16.run_harness(bin16, mcases)
+            mshards = []
+            for k in range(NCPU):
+                ids = list(range(k, len(mcases), NCPU))
+                defs = "\n".join("Definition c%d : acase := (%s, %s, %s)." % (j, mrows[i][1], mrows[i][2], mrows[i][3]) for j, i in enumerate(ids))
+                mshards.append("%s\nEval vm_compute in (auto_judge_all [%s])." % (defs, ";".join("c%d" % j for j in range(len(ids)))))
+            mres = coq.run_cases(ctx, "c19auto", "From Coq Require Import Uint63.\nFrom SwayV Require Import Base.Util C16.Model C16.Judge C19.Model C19.Spec C19.Comments C19.Auto C19.Judge.\nOpen Scope uint63_scope.", mshards, timeout=2400)
+            for k in range(NCPU):
+                ids = list(range(k, len(mcases), NCPU))
+                for i, c in zip(ids, mres[k][0] if mres[k] else []):
+                    mhist[int(c)] = mhist.get(int(c), 0) + 1
+                    if int(c) == 1 and len(aubad) < 5:
+                        aubad.append((key_of(mcases[i]), {"file": "mutant", "variant": "-", "input_hex": mcases[i].hex()[:6000]}))
+        except RuntimeError as e:
+            ctx.violation("auto-eval", {"log": str(e)[-2000:]}, "automaton correspondence could not be evaluated", no_input=True)
+    for key, rep in aubad:
+        ctx.violation(key, dict(rep, correspondence="C19.corr/auto_sig_exact"),
+                      "auto_sig (position-free automaton form of the lexer model) differs from the significant tokens of the real lexer's stream: C19_tok_equiv_whitespace_irrelevant no longer tied to the code", no_input=True)
     for key, rep in cmbad:
         ctx.violation(key, dict(rep, correspondence="C19.corr/comment_map_exact"),
                       "the real CommentMap::from_src differs from the model (comments of the lexed stream in source order) or is not well-formed: C19_comments_partition no longer tied to the code", no_input=True)
@@ -179,7 +221,7 @@ def run(ctx):
         "evaluations": len(cases), "distinct_nontrivial": len({b for _, _, b in cases if len(b) >= 16}),
         "rule": "distinct by content, at least 16 bytes; repository .sw files (quick: 450 sampled; <= %d bytes) as they are and with comments inserted deterministically after every 5th (thorough: also every 3rd) `; { } , ( )` boundary outside strings/comments, alternately `// cN` and `/* cN */`; plus a regression corpus" % SIZE_CAP,
         "samples": [{"file": o, "variant": v, "verdict": CODES[c[0]]} for (o, v, _), c in list(zip(cases, codes))[ncorpus:ncorpus + 6]],
-        "verdicts": hist, "comment_map_correspondence": cmh, "verdicts_per_variant": per_variant, "comments_inserted": ncomments,
+        "verdicts": hist, "comment_map_correspondence": cmh, "automaton_correspondence": {"on_inputs": {("equal" if k == 0 else "differ" if k == 1 else "lexer-panic"): v for k, v in auh.items()}, "on_mutants_and_soups": {("equal" if k == 0 else "differ" if k == 1 else "lexer-panic"): v for k, v in mhist.items()}}, "verdicts_per_variant": per_variant, "comments_inserted": ncomments,
         "checker_cmd": "make -C coq C19/Props.vo C19/Judge.vo + coqc vm_compute judge over harness output",
         "trusted_base": ["Coq kernel + vm_compute", "harness c19.rs/c16.rs", "props/c19.py (variants)", "the real lexer's streams are used for both texts (tied to the model by C16)"],
     })
